@@ -590,3 +590,48 @@ def zero_size_elem_list(tree, syn):
             return syn == "uper" and t[2][0] == 0 and t[2][1] == 0 and not t[2][2]
         return False
     return tree_any(tree, lambda t: t[0] in ("q", "t") and zero(t[3]))
+
+
+def val_parse(s, pos=0):
+    """value string of ocaml/drv_rt.ml -> (nested tuple, next position)"""
+    c = s[pos]
+    if c in "TFN_":
+        return (c,), pos + 1
+    if c in "IO":
+        j = s.index(";", pos)
+        return (c, s[pos + 1:j]), j + 1
+    if c in "SL":
+        pos += 2
+        kids = []
+        while s[pos] != "}":
+            k, pos = val_parse(s, pos)
+            kids.append(k)
+        return (c, tuple(kids)), pos + 1
+    if c == "C":
+        j = s.index(":", pos)
+        k, p2 = val_parse(s, j + 1)
+        return ("C", s[pos + 1:j], k), p2
+    if c == "!":
+        k, p2 = val_parse(s, pos + 1)
+        return ("!", k), p2
+    raise ValueError("value syntax at %d" % pos)
+
+
+def long_uniform_list(vs, n=200):
+    """the value holds a list of more than n elements that are all the same (what a zero-size element decodes to)"""
+    try:
+        v, _ = val_parse(vs)
+    except (ValueError, IndexError, RecursionError):
+        return False
+    stack = [v]
+    while stack:
+        x = stack.pop()
+        if x[0] == "L" and len(x[1]) > n and len(set(x[1])) == 1:
+            return True
+        if x[0] in ("S", "L"):
+            stack.extend(x[1])
+        elif x[0] == "C":
+            stack.append(x[2])
+        elif x[0] == "!":
+            stack.append(x[1])
+    return False
